@@ -394,6 +394,15 @@ class Process:
         else:
             return (self.pid, self.create_time())
 
+    def _start_time(self):
+        """The process start time used to tell which of two processes
+        is older. On Linux it is relative to boot, so contrarily to
+        create_time() it is not affected by system clock updates.
+        """
+        if LINUX:
+            return self._proc.create_time(monotonic=True)
+        return self.create_time()
+
     def __str__(self):
         info = collections.OrderedDict()
         info["pid"] = self.pid
@@ -603,10 +612,10 @@ class Process:
             return None
         ppid = self.ppid()
         if ppid is not None:
-            ctime = self.create_time()
+            ctime = self._start_time()
             try:
                 parent = Process(ppid)
-                if parent.create_time() <= ctime:
+                if parent._start_time() <= ctime:
                     return parent
                 # ...else ppid has been reused by another process
             except NoSuchProcess:
@@ -974,6 +983,7 @@ class Process:
         """
         self._raise_if_pid_reused()
         ppid_map = _ppid_map()
+        ctime = self._start_time()
         ret = []
         if not recursive:
             for pid, ppid in ppid_map.items():
@@ -982,7 +992,7 @@ class Process:
                         child = Process(pid)
                         # if child happens to be older than its parent
                         # (self) it means child's PID has been reused
-                        if self.create_time() <= child.create_time():
+                        if ctime <= child._start_time():
                             ret.append(child)
                     except (NoSuchProcess, ZombieProcess):
                         pass
@@ -1012,7 +1022,7 @@ class Process:
                         child = Process(child_pid)
                         # if child happens to be older than its parent
                         # (self) it means child's PID has been reused
-                        intime = self.create_time() <= child.create_time()
+                        intime = ctime <= child._start_time()
                         if intime:
                             ret.append(child)
                             stack.append(child_pid)
